@@ -8,6 +8,9 @@ Proof. induction a as [|y a IH]; cbn [find app]; [discriminate|]. destruct (f y)
 Lemma find_app_r {A} (f : A -> bool) a b : find f a = None -> find f (a ++ b) = find f b.
 Proof. induction a as [|y a IH]; cbn [find app]; [reflexivity|]. destruct (f y); [discriminate|auto]. Qed.
 
+Lemma zlen_nonneg' {A} (a : list A) : 0 <= zlen a.
+Proof. unfold zlen. lia. Qed.
+
 Definition slot (e : pentry) : Z := if pe_two e then 2 else 1.
 Fixpoint total (es : list pentry) : Z := match es with [] => 0 | e :: r => slot e + total r end.
 
@@ -171,3 +174,90 @@ Theorem frames_written_refuted :
 Proof. exists [Some 1%N], [0%Z]. split; [reflexivity|discriminate]. Qed.
 (* not proved (false today, F14): *)
 Definition frames_written_full : Prop := forall fs pos, written_frames fs pos = tree_frames fs pos.
+
+(* ---- the BootstrapMethods table ---- *)
+Lemma bfind_some m : forall e i, bfind m e = Some i -> In (e, i) m.
+Proof.
+  induction m as [|[k v] m IH]; intros e i; cbn [bfind]; [discriminate|].
+  destruct (str_eqb k e) eqn:E; [apply str_eqb_eq in E; subst; intros [= <-]; left; reflexivity|].
+  intros H. right. apply IH, H.
+Qed.
+Lemma bfind_none m : forall e, bfind m e = None -> ~ In e (map fst m).
+Proof.
+  induction m as [|[k v] m IH]; intros e; cbn [bfind map fst]; [intros _ []|].
+  destruct (str_eqb k e) eqn:E; [discriminate|]. intros H [->|Hin].
+  - rewrite str_eqb_refl in E. discriminate.
+  - exact (IH _ H Hin).
+Qed.
+Lemma bfind_in m : forall e i, NoDup (map fst m) -> In (e, i) m -> bfind m e = Some i.
+Proof.
+  induction m as [|[k v] m IH]; intros e i Hnd; cbn [bfind map fst] in *; [intros []|].
+  inversion Hnd as [|? ? Hn Hd]; subst.
+  intros [[= -> ->]|Hin].
+  - rewrite str_eqb_refl. reflexivity.
+  - destruct (str_eqb k e) eqn:E; [|apply IH; assumption].
+    apply str_eqb_eq in E. subst. exfalso. apply Hn. apply in_map_iff. exists (e, i). split; [reflexivity|exact Hin].
+Qed.
+
+Record BInv (t : bsm) : Prop := {
+  binv_map : forall e i, In (e, i) (b_map t) <-> (0 <= i /\ nth_error (rev (b_inner t)) (Z.to_nat i) = Some e);
+  binv_nodup : NoDup (map fst (b_map t));
+  binv_bound : forall e i, In (e, i) (b_map t) -> i <= 65535
+}.
+
+Lemma bsm_get_rev t i : bsm_get t i = if i <? 0 then None else nth_error (rev (b_inner t)) (Z.to_nat i).
+Proof. unfold bsm_get, frev. rewrite <- rev_alt. reflexivity. Qed.
+
+Theorem bsm_new_inv : BInv bsm_new.
+Proof.
+  constructor.
+  - intros e i. cbn. split; [intros []|]. intros [_ H]. destruct (Z.to_nat i); discriminate.
+  - constructor.
+  - intros e i [].
+Qed.
+
+Theorem bsm_put_spec t e t' i :
+  BInv t -> bsm_put t e = Ok (t', i) ->
+  BInv t' /\ bsm_get t' i = Some e /\
+  (forall j x, bsm_get t j = Some x -> bsm_get t' j = Some x) /\
+  0 <= i < zlen (b_inner t') /\ i <= 65535.
+Proof.
+  intros [Hm Hnd Hbd]. unfold bsm_put. destruct (bfind (b_map t) e) as [i0|] eqn:E.
+  - intros [= <- <-]. apply bfind_some in E. pose proof (Hbd _ _ E) as Hle. apply Hm in E as [H0 Hn].
+    split; [split; assumption|]. split; [|split; [auto|]].
+    + rewrite bsm_get_rev. destruct (i0 <? 0) eqn:El; [apply Z.ltb_lt in El; lia|exact Hn].
+    + assert (Hlt : (Z.to_nat i0 < length (rev (b_inner t)))%nat) by (apply nth_error_Some; congruence).
+      rewrite rev_length in Hlt. unfold zlen. split; [lia|exact Hle].
+  - destruct (u16max <? zlen (b_inner t)) eqn:Eo; [discriminate|]. apply Z.ltb_ge in Eo. unfold u16max in Eo.
+    intros [= <- <-]. cbn [b_inner b_map].
+    assert (Hnth : forall j, nth_error (rev (e :: b_inner t)) j =
+                             if (j <? length (b_inner t))%nat then nth_error (rev (b_inner t)) j
+                             else if (j =? length (b_inner t))%nat then Some e else None).
+    { intros j. cbn [rev]. destruct (j <? length (b_inner t))%nat eqn:Ej.
+      - apply Nat.ltb_lt in Ej. rewrite nth_error_app1 by (rewrite rev_length; exact Ej). reflexivity.
+      - apply Nat.ltb_ge in Ej. rewrite nth_error_app2 by (rewrite rev_length; exact Ej). rewrite rev_length.
+        destruct (j =? length (b_inner t))%nat eqn:Ee.
+        + apply Nat.eqb_eq in Ee. subst. rewrite Nat.sub_diag. reflexivity.
+        + apply Nat.eqb_neq in Ee. destruct (j - length (b_inner t))%nat eqn:Ed; [lia|]. destruct n; reflexivity. }
+    split; [split|split; [|split]].
+    + intros e' i'. cbn [In]. split.
+      * intros [Heq|Hin].
+        -- injection Heq as <- <-. split; [apply zlen_nonneg'|]. rewrite Hnth.
+           unfold zlen. rewrite Nat2Z.id, Nat.ltb_irrefl, Nat.eqb_refl. reflexivity.
+        -- apply Hm in Hin as [H0 Hn]. split; [exact H0|]. rewrite Hnth.
+           assert (Hlt : (Z.to_nat i' < length (rev (b_inner t)))%nat) by (apply nth_error_Some; congruence).
+           rewrite rev_length in Hlt. apply Nat.ltb_lt in Hlt. rewrite Hlt. exact Hn.
+      * intros [H0 Hn]. rewrite Hnth in Hn.
+        destruct (Z.to_nat i' <? length (b_inner t))%nat eqn:Ej; [right; apply Hm; split; assumption|].
+        destruct (Z.to_nat i' =? length (b_inner t))%nat eqn:Ee; [|discriminate].
+        apply Nat.eqb_eq in Ee. injection Hn as <-. left. f_equal. unfold zlen. rewrite <- Ee. rewrite Z2Nat.id by lia. reflexivity.
+    + cbn [map fst]. constructor; [apply bfind_none, E|exact Hnd].
+    + intros e' i' [[= <- <-]|Hin]; [exact Eo|exact (Hbd _ _ Hin)].
+    + rewrite bsm_get_rev. cbn [b_inner]. pose proof (zlen_nonneg' (b_inner t)).
+      destruct (zlen (b_inner t) <? 0) eqn:El; [apply Z.ltb_lt in El; lia|].
+      rewrite Hnth. unfold zlen. rewrite Nat2Z.id, Nat.ltb_irrefl, Nat.eqb_refl. reflexivity.
+    + intros j x. rewrite !bsm_get_rev. cbn [b_inner]. destruct (j <? 0); [discriminate|]. intros H.
+      assert (Hlt : (Z.to_nat j < length (rev (b_inner t)))%nat) by (apply nth_error_Some; congruence).
+      rewrite rev_length in Hlt. rewrite Hnth. apply Nat.ltb_lt in Hlt. rewrite Hlt. exact H.
+    + pose proof (zlen_nonneg' (b_inner t)). unfold zlen in *. cbn [length]. lia.
+Qed.
